@@ -149,6 +149,13 @@ def execute(record, ctx):
 
             rr = random.Random(s)
             objs = [[Floor() for _ in range(w)] for _ in range(h)]
+            if mode == 'clear' and s % 3 == 0:
+                # objects that block movement but not vision leave the view unobstructed
+                from gym_gridverse.grid_object import Box, Color, Key, MovingObstacle
+
+                for _ in range(rr.randint(1, max(1, h * w // 4))):
+                    objs[rr.randrange(h)][rr.randrange(w)] = rr.choice([Box(Floor()), Box(Key(Color.RED)), MovingObstacle(), Key(Color.BLUE)])
+                ctx.probe('visibility_clear_with_transparent_objects')
             if mode == 'walls':
                 for _ in range(rr.randint(1, max(1, h * w // 4))):
                     objs[rr.randrange(h)][rr.randrange(w)] = Wall()
@@ -174,6 +181,12 @@ def execute(record, ctx):
                 continue
             if mode == 'clear' and not bool(np.all(v)):
                 ctx.violate('rays', 'unobstructed_view_hides_cells', 'raytracing', '-', i, f'{h}x{w} from {(oy, ox)}: {int(v.size - v.sum())} cells hidden')
+            if mode == 'clear' and h * w <= 100:
+                # the stochastic variant shows a cell with the share of rays reaching it lit: in an unobstructed view
+                # that share is 1 for every cell, whatever is drawn
+                sv = sut(vreg['stochastic_raytracing'], grid, Position(oy, ox), rng=np.random.default_rng(s))
+                if isinstance(sv, Raised) or not bool(np.all(sv)):
+                    ctx.violate('rays', 'unobstructed_view_hides_cells', 'stochastic_raytracing', '-', i, f'{h}x{w} from {(oy, ox)}: {sv!r}'[:300])
             if not bool(v[oy, ox]):
                 ctx.violate('rays', 'origin_not_visible', 'raytracing', mode, i, f'{h}x{w} from {(oy, ox)}')
         elif kind == 'ray':
